@@ -509,3 +509,25 @@ def huge_size_headers(rnd):
                 for tail in tails:
                     yield struct.pack('>BHI', t, ch, size) + tail, \
                         'huge-size'
+
+
+def deep_big_leaf_frames(rnd):
+    """A value of 5 .. 70 kB (string, byte array, array of small ints) at the
+    bottom of 4 .. 24 nested containers: every level declares tens of
+    kilobytes.  Work that is repeated per level for "large" values only
+    shows when depth and size meet."""
+    for size in (5000, 20000, 70000):
+        leaves = [b'S' + struct.pack('>I', size) + b's' * size,
+                  b'x' + struct.pack('>I', size) + bytes(size),
+                  b'A' + struct.pack('>I', 2 * (size // 2)) +
+                  b'b\x01' * (size // 2)]
+        for leaf in leaves:
+            for depth in (4, 8, 16, 24):
+                for kinds in ('A', 'F', 'AF'):
+                    v = nest_payload(depth, rnd, kinds, leaf)
+                    tab = b'\x01d' + v
+                    table = struct.pack('>I', len(tab)) + tab
+                    p = struct.pack('>HHBB', 10, 10, 0, 9) + table + \
+                        struct.pack('>I', 0) + struct.pack('>I', 0)
+                    yield envelope(1, 0, p), 'deep-big-leaf:%d:%d' % (
+                        depth, size)
